@@ -19,7 +19,7 @@ CLAIMED = {
             "exit that can carry a fatal variant passes the latch; Error::Disconnected is only built latched; only "
             "Session::connect makes LIVE true. These are necessary conditions of C11 visible on every path of the "
             "resolved program (all fault kinds x all I/O sites are covered because every site and every error edge is "
-            "an obligation); the behaviour over whole fault sequences is not executed or modelled.",
+            "an obligation); the behaviour over whole fault sequences is not executed or modelled. In every operation with its own LIVE test no error is built before the test: a dead handle is answered by the gate, never by an argument check placed in front of it.",
             "DESIGN.md §4 C11"),
     "C02": ("who-may-mutate census of the outbound queues + dominance/must-pass on mir_built + call-site wiring",
             "Static analysis, structural clauses only: enqueue dominates the first write in publish and is await-free; "
@@ -46,7 +46,7 @@ CLAIMED = {
             "the retained-removal and of the PUBREC reason check and carries the PUBREC's identifier; release entries are "
             "removed only by the PUBCOMP arm with that identifier; no order-breaking operation on the release queue; "
             "PUBREL is serialised from the step's identifier and release entries are re-armed for replay. Interleavings of "
-            "several exchanges are covered through these per-entry invariants, not enumerated. The PUBCOMP removal takes out exactly the entry it looked up (index provenance: position over the whole list, or over the tail plus one). The removal functions report true exactly when they removed an entry; the PUBREC's lookup of the PUBLISH tests the identifier only (a replayed PUBLISH has DUP set). ReasonCode::success is tabulated over every variant against the 0x80 boundary; a completed PUBREL flush marks the release entry of that identifier. A PUBREC that removed the PUBLISH and carried a success code always queues the release entry.",
+            "several exchanges are covered through these per-entry invariants, not enumerated. The PUBCOMP removal takes out exactly the entry it looked up (index provenance: position over the whole list, or over the tail plus one). The removal functions report true exactly when they removed an entry; the PUBREC's lookup of the PUBLISH tests the identifier only (a replayed PUBLISH has DUP set). ReasonCode::success is tabulated over every variant against the 0x80 boundary; a completed PUBREL flush marks the release entry of that identifier. A PUBREC that removed the PUBLISH and carried a success code always queues the release entry. No path through the PUBREC arm leaves the handler before the retained removal was attempted (a test in front of it would consume the PUBREC of an accepted message).",
             "DESIGN.md §4 C03"),
     "C04": ("path-sensitive must-pass over the inbound handler arms + wiring + who-may-mutate on mir_built",
             "Static analysis, structural clauses only: in the PUBLISH arm every feasible delivering path (QoS 1) / non-error "
@@ -76,7 +76,7 @@ CLAIMED = {
             "Static analysis, structural clauses only: identifiers are non-zero by type; every identifier-bearing header, "
             "enqueue and handle takes the allocator's result of the same operation; the allocator returns an identifier "
             "only after looking that very value up in the retained and release lists and finding it absent. With the last "
-            "clause the clause set is the property (for the in-flight sets the crate keeps). Non-zero holds by type, by a test of the value handed out, or by the invariant that every store to the counter is provably non-zero. The tables the allocator consults lose only the entry an acknowledgement names (index provenance). Header QoS bits and identifier allocation use the same effective QoS (C19's rule). An identifier leaves the retained list on a successful PUBREC only to enter the release list.",
+            "clause the clause set is the property (for the in-flight sets the crate keeps). Non-zero holds by type, by a test of the value handed out, or by the invariant that every store to the counter is provably non-zero. The tables the allocator consults lose only the entry an acknowledgement names (index provenance). Header QoS bits and identifier allocation use the same effective QoS (C19's rule). An identifier leaves the retained list on a successful PUBREC only to enter the release list. An empty list proves absence like a failed lookup (the true edge of is_empty / len == 0 on that very list).",
             "DESIGN.md §4 C07"),
     "C12": ("dominance over Session::connect + store-shape of the reset functions + provenance of the CONNECT buffer",
             "Static analysis, structural clauses only: reader reset, timer reset and the unconditional re-arm of all queues "
